@@ -584,6 +584,12 @@ impl Harness for C10 {
                 }
             }
         }
+        // cheap and diverse jobs first, the large all-order SVC families last
+        let rank = |name: &str| -> usize {
+            let order = ["kernel", "gram", "svr-n", "svr-structured", "svc-big", "svc-2d", "svc-1d-n4-e1", "svc-1d-n4-e2", "svc-1d-n5"];
+            order.iter().position(|p| name.starts_with(p)).unwrap_or(order.len())
+        };
+        jobs.sort_by_key(|j| rank(&j.name));
         Plan {
             jobs,
             budget_s: if t { 2700 } else { 40 },
